@@ -135,8 +135,19 @@ pub struct WNested {
     pub v: Option<Option<i64>>,
 }
 
+/// Witness of enum-variant-comment-render: a derived unit enum with two variants, one documented.
+#[derive(introspect::CustomType)]
+#[zlink(crate = "zlink_core")]
+#[allow(dead_code)]
+pub enum WColor {
+    /// warm
+    Red,
+    Blue,
+}
+
 pub fn witnesses(out: &mut Vec<Record>) {
-    use introspect::Type;
+    use introspect::{CustomType, Type};
+    out.push(rec("witness.enum-comment.roundtrip", round_trip("org.gen.witness2", &[WColor::CUSTOM_TYPE], &[], &[])));
     out.push(rec("witness.nested-option.type", dump_type::<WNested>()));
     out.push(rec("witness.nested-option.roundtrip", round_trip("org.gen.witness", &[], &[], &[("UseNested", WNested::TYPE)])));
 }
